@@ -81,6 +81,17 @@ async fn read_event_buffer(
     let offset = record.value();
     let row_len = offset.end - offset.start;
 
+    // The value range is read from the file so make
+    // sure it is inside the file before allocating
+    let file_len = vfs::metadata(file_path.as_ref()).await?.len();
+    if offset.end > file_len {
+        return Err(std::io::Error::new(
+            std::io::ErrorKind::UnexpectedEof,
+            "event log record value is beyond the end of the file",
+        )
+        .into());
+    }
+
     guard.seek(SeekFrom::Start(offset.start)).await?;
 
     let mut buf = vec![0u8; row_len as usize];
